@@ -10,7 +10,8 @@ LEVEL = ("Static typestate of the chain mailbox on the worker's MIR: the mailbox
          "at most one queued command is consumed per draw); the pause path calls nothing but the blocking receive and writes only the mailbox (R3); "
          "the controller forwards Pause / Continue (and Flush) to every chain before it acknowledges (R4); the first mailbox read happens after "
          "initialisation and before the first draw, so a chain paused before it started does not draw (R5). The count of draws under real timing is "
-         "not decided.")
+         "not decided."
+         " Added: command delivery - the per-chain command channel is the unbounded mpsc channel and commands are sent with Sender::send (R6).")
 EXPLANATION = ("CFG reachability / path counting (back edges cut) on the MIR of the worker closure and of the controller's command loop; anchors found "
                "by role (closure given to spawn_fifo that calls Chain::expanded_draw; closure that calls Receiver::recv_timeout on SamplerCommand).")
 TRUSTED = ["rustc nightly MIR", "nutsfacts extractor", "rules/c12.py", "std::sync::mpsc: recv blocks until a message or disconnection; try_recv never blocks"]
